@@ -313,9 +313,15 @@ func GenSegDesc(r *gen.Rand, allowForeign bool) SegDesc {
 	}
 	d.Type = segTypes[r.Intn(len(segTypes))]
 	d.Num, d.Exp = r.Byte(), r.Byte()
+	if r.Chance(4) {
+		d.Num, d.Exp = r.PickByte([]byte{0, 0, 1, 255}), r.PickByte([]byte{0, 0, 1, 255})
+	}
 	if (d.Type == 0x34 || d.Type == 0x36) && r.Bool() {
 		d.HasSub = true
 		d.SubNum, d.SubExp = r.Byte(), r.Byte()
+		if r.Chance(3) {
+			d.SubNum, d.SubExp = r.PickByte([]byte{0, 0, 1, 255}), r.PickByte([]byte{0, 0, 1, 255}) // the pair is there even when it reads 0 of 0
+		}
 	}
 	if r.Chance(25) && !d.Cancel && d.UPIDType != 0x0d && d.UPIDType != 0 {
 		// stretch the UPID so that descriptor_length lands on 253..255
